@@ -1,7 +1,8 @@
-"""C15 evo_traj processing order.  Generator spec/pipeline/Pipeline.tla (option lattice over lattice input files), expected exports
+"""C15 evo_traj processing order (and the file pipelines of evo_ape / evo_rpe used by C01 / C02).  Generator spec/pipeline/Pipeline.tla (option lattice over lattice input files), expected exports
 computed by PipelineProps in TLA+; input files by the independent serializer, in-process evo_traj, exports parsed by the independent parser."""
 import copy
 import json
+import math
 import os
 import shutil
 import tempfile
@@ -244,7 +245,13 @@ def execute_metric(job):
         if q["plane"] != "none":
             argv += ["--project_to_plane", q["plane"]]
         if c["tool"] == "rpe":
-            argv += ["--delta", str(q["delta"]), "--delta_unit", "f"] + (["--all_pairs"] if q["allpairs"] else [])
+            if q["dunit"] == "m":
+                argv += ["--delta", repr(0.5 * q["delta"] * u), "--delta_unit", "m"] + (["--pairs_from_reference"] if q["fromref"] else [])
+            else:
+                argv += ["--delta", str(q["delta"]), "--delta_unit", "f"] + (["--all_pairs"] if q["allpairs"] else [])
+        cu = bool(q.get("cu"))
+        if cu:
+            argv += ["--change_unit", "mm" if q["rel"] == "trans" else "rad"]
         argv += ["--save_results", "out.zip", "--no_warnings"]
         r = cli.run_cli(c["tool"], argv, d)
         if r["code"] != 0 or r["exc"] != "none" or not os.path.exists(os.path.join(d, "out.zip")):
@@ -255,6 +262,8 @@ def execute_metric(job):
         vals = []
         for v in err:
             v = float(v)
+            if cu:                    # back to the native unit: the stored values are in mm / rad
+                v = v / 1000.0 if q["rel"] == "trans" else math.degrees(v)
             if q["rel"] == "trans":
                 vals.append(trajexec.sq_units(v, u))
             elif q["rel"] == "deg":
